@@ -3,7 +3,8 @@ import Ecal.Model.Priority
 /-!
 Driver of C10. Payloads (space separated):
 
-* `R <flag 0|1> <prio>:<fails>:<kid> …` — rules triggered by one event, in declaration order
+* `R <flag 0|1> [H<history>] <prio>:<fails>:<kid> …` — rules triggered by one event, in declaration order;
+  the optional history (letters, see `parseHistory`) is the processor's life cycle before the event
   (`kid` = the rule adds a child event before it returns). Result
   `exec=<priorities of the started actions, in order> err=<sorted priorities in the error map> kids=<n>`.
 * `S <prio>:<fails>:<kid> …` — the same rules declared as ECAL sinks; the interpreter sets the flag by default.
@@ -32,11 +33,23 @@ def parseRule (i : Nat) (s : String) : Option (Rule × Bool) :=
     some ({ name := i, prio := p, fails := f == "1" }, k == "1")
   | _ => none
 
+/-- history letters: s Start, f Finish, r Reset, a AddRule (all rules), T / F set the flag,
+    l = the reload of `CLIInterpreter.LoadInitialFile` (Finish, Reset, declare again, Start) -/
+def parseHistory (s : String) : List LOp :=
+  s.toList.flatMap fun
+    | 's' => [.start] | 'f' => [.finish] | 'r' => [.reset] | 'a' => [.addRules]
+    | 'T' => [.setFlag true] | 'F' => [.setFlag false]
+    | 'l' => [.finish, .reset, .addRules, .start]
+    | _ => []
+
 def runRules (flag : String) (rs : List String) : String :=
+  let (hist, rs) := match rs with
+    | h :: rest => if h.startsWith "H" then (parseHistory h, rest) else ([], rs)
+    | [] => ([], [])
   match (rs.zipIdx.map fun (s, i) => parseRule i s).mapM id with
   | none => "bad-payload"
   | some rules =>
-    let (exec, errs) := processRules stableSort (flag == "1") (rules.map (·.1))
+    let (exec, errs) := processRulesAfter stableSort { flag := flag == "1" } hist (rules.map (·.1))
     let kids := (exec.filter fun r => (rules.find? (·.1.name == r.name)).any (·.2)).length
     let nt := rules.length ≥ 2 && rules.any (·.1.fails)
     s!"exec={joinOr "." (exec.map (toString ·.prio))} err={joinOr "." ((sortInts (errs.map (·.prio))).map toString)} kids={kids}"
